@@ -16,7 +16,11 @@ out.append("properties without a thorough record were not run end to end in the 
 out.append("thorough bounds was evaluated once in plain Python against the oracle, without the solver, as a harness sanity check;")
 out.append("the C07 thorough record shows 324/332: the 8 missing obligations were shards whose constants contradict the")
 out.append("precondition (reported as harness errors, exit 2) - they are skipped since; the C17 record shows 4 shards of `arith-p3` that")
-out.append("did not finish in their CPU budget - that condition was made smaller afterwards):\n")
+out.append("did not finish in their CPU budget - that condition was made smaller afterwards; the thorough records predate the")
+out.append("conditions added in the fourth and fifth round of seeded changes (C05 via, C09 wide, C10 hist, C11 second tree, C13 comma")
+out.append("class, C14 labels, C15 premarks / earlier call, C18 interleave / reread / eager), whose thorough tiers were not re-run end")
+out.append("to end; the quick records of C05, C09-C11, C13-C15 and C18 were measured while other runs shared the 16 cores, their")
+out.append("wall times are therefore up to twice what the check needs alone):\n")
 out.append("| property | quick | thorough |")
 out.append("|---|---|---|")
 for i in range(1, 21):
